@@ -28,6 +28,8 @@ pub const PFORMS: [&[Seg]; 15] = [
 ];
 pub const FULL_PFORMS: usize = 5;
 pub const QUICK_PFORMS: usize = 7;
+/// group number of the import form `super.pkg`
+pub const SUPER_PKG_GROUP: usize = 6;
 
 #[derive(Clone, Copy, PartialEq, Eq, Debug)]
 pub enum Shadow {
@@ -117,7 +119,8 @@ pub enum Unit {
     /// `get_function` by path + file discovery of one (tree, placement)
     Lookup { tree: usize, placement: u32 },
     /// reference probes; group 0 = no import, g >= 1 = import path form g-1
-    Probes { tree: usize, placement: u32, site: usize, kind: Kind, group: usize },
+    /// `impkind`: restricted to one import kind (index into IMPKINDS)
+    Probes { tree: usize, placement: u32, site: usize, kind: Kind, group: usize, impkind: Option<usize> },
 }
 
 pub fn n_trees(tier: Tier) -> usize {
@@ -147,12 +150,20 @@ pub fn import_shadows(tier: Tier, group: usize, kind: Kind) -> &'static [Shadow]
 
 /// use kinds that get import groups (the others only group 0: all record
 /// uses go through the same path resolution)
-pub fn kind_has_import_groups(tier: Tier, kind: Kind) -> bool {
-    match kind {
-        Kind::Call | Kind::Const => true,
-        Kind::RecLit => tier == Tier::Thorough,
-        Kind::RecTy => false,
+pub fn kind_has_import_groups(_tier: Tier, kind: Kind) -> bool {
+    matches!(kind, Kind::Call | Kind::Const)
+}
+
+/// the lite import forms are combined with one use kind only (thorough:
+/// the call; quick has two lite forms and keeps both kinds)
+pub fn kind_has_group(tier: Tier, kind: Kind, group: usize) -> bool {
+    if group == 0 {
+        return true;
     }
+    if !kind_has_import_groups(tier, kind) {
+        return false;
+    }
+    group <= FULL_PFORMS || tier == Tier::Quick || kind == Kind::Call
 }
 
 pub fn unit_table(tier: Tier) -> Vec<Unit> {
@@ -164,14 +175,19 @@ pub fn unit_table(tier: Tier) -> Vec<Unit> {
             for site in 0..n {
                 for kind in KINDS {
                     for group in 0..=n_pforms(tier) {
-                        if group > 0 && !kind_has_import_groups(tier, kind) {
+                        if !kind_has_group(tier, kind, group) {
                             continue;
                         }
-                        // record literals: the import forms of DESIGN only
-                        if group > FULL_PFORMS && kind == Kind::RecLit {
-                            continue;
+                        if group == SUPER_PKG_GROUP {
+                            // nearly every probe of this group meets the known
+                            // defect C13-super-scope-walk: smaller units, so
+                            // that every violation is kept literally
+                            for ik in 0..IMPKINDS.len() {
+                                v.push(Unit::Probes { tree: t, placement: p, site, kind, group, impkind: Some(ik) });
+                            }
+                        } else {
+                            v.push(Unit::Probes { tree: t, placement: p, site, kind, group, impkind: None });
                         }
-                        v.push(Unit::Probes { tree: t, placement: p, site, kind, group });
                     }
                 }
             }
@@ -298,7 +314,7 @@ fn rec_variants(world: &World, kind: Kind) -> Vec<usize> {
 }
 
 /// The probes of one unit, in a fixed order (index = case number).
-pub fn probes(world: &World, site: usize, kind: Kind, group: usize, tier: Tier) -> Vec<Prog> {
+pub fn probes(world: &World, site: usize, kind: Kind, group: usize, impkind: Option<usize>, tier: Tier) -> Vec<Prog> {
     let x = kind.item().name();
     let y = ITEM_NAMES[(kind.item() as usize + 1) % 3];
     let variants = rec_variants(world, kind);
@@ -328,7 +344,10 @@ pub fn probes(world: &World, site: usize, kind: Kind, group: usize, tier: Tier) 
         return out;
     }
     let pf: &[Seg] = PFORMS[group - 1];
-    for ik in IMPKINDS {
+    for (iki, ik) in IMPKINDS.into_iter().enumerate() {
+        if impkind.is_some_and(|k| k != iki) {
+            continue;
+        }
         if ik == ImpKind::Chain3Rev && (pf.len() < 2 || *pf.last().unwrap() == "super") {
             continue;
         }
